@@ -221,8 +221,61 @@ theorem step_sim {cfg : Config} {L n Li : Nat} (hcfg : CfgOk cfg L n Li) (dc : I
         obtain ⟨bytes, u2, mem2, mr, hld, hbytes, hi2, hdwf2, hcoh2, hmrc⟩ :=
           load_ok hcfg.dline hcfg.Lpos hcfg.npos hdwf1 hcoh1 (i.memoryRead a.ctx 0#32) hlok
         simp only [hld, hbytes]
-        trace_state
-        sorry
+        simp only [hbytes] at hsok
+        have hrun := run_mem i a.ctx mem2 app.labels a.pc bytes 0#32
+        simp only [] at hrun
+        simp only [hrun]
+        have hsim2 : Sim L n Li ⟨⟨{ a.ctx with Memory := mem2 }, a.pc⟩, u2⟩ a :=
+          { pc := rfl, ctx := rfl, dwf := hdwf2, coh := hcoh2, iwf := by rw [hi2]; exact hfi }
+        have hmr0 : 0 ≤ mr ∧ mr ≤ Gen.Latency.L1Access + Gen.Latency.MemoryAccess := by
+          rcases hmrc with ⟨_, h⟩ | ⟨_, h | h⟩ <;> rw [h] <;> omega
+        cases h5 : i.run a.ctx app.labels a.pc bytes 0#32 with
+        | error fl =>
+          cases fl with
+          | err msg =>
+            simp only [StepRel, faultHalt]
+            exact ⟨trivial, hsim2, Or.inr ⟨hfc, rfl, rfl, hmr0.1, hmr0.2, Int.le_refl 0, hmem⟩⟩
+          | panic w =>
+            simp only [StepRel, faultHalt]
+            exact ⟨trivial, hsim2, Or.inr ⟨hfc, rfl, rfl, hmr0.1, hmr0.2, Int.le_refl 0, hmem⟩⟩
+        | ok e =>
+          simp only [h5] at hsok
+          cases h6 : Gen.InstructionType.Cycles i.instructionType with
+          | error fl =>
+            simp only [StepRel]
+            exact ⟨trivial, hsim2, Or.inr ⟨hfc, rfl, rfl, hmr0.1, hmr0.2, Int.le_refl 0, hmem⟩⟩
+          | ok ex =>
+            simp only
+            by_cases h7 : e.Return = true
+            · simp only [h7, if_true, StepRel]
+              exact ⟨trivial, hsim2, Or.inr ⟨hfc, rfl, rfl, hmr0.1, hmr0.2, Int.le_refl 0, hmem⟩⟩
+            · simp only [h7, if_false]
+              by_cases h8 : e.RegisterChange = true
+              · simp only [h8, if_true, StepRel]
+                refine ⟨?_, hfc, rfl, rfl, hmr0.1, hmr0.2, reg_nonneg, reg_le_mem⟩
+                exact { pc := rfl, ctx := rfl, dwf := hdwf2, coh := hcoh2, iwf := by rw [hi2]; exact hfi }
+              · simp only [h8, if_false]
+                by_cases h9 : e.MemoryChange = true
+                · simp only [h9, if_true]
+                  have h7' : e.Return = false := by simpa using h7
+                  have h8' : e.RegisterChange = false := by simpa using h8
+                  simp only [h7', h8', h9, Bool.not_false, and_self, if_true] at hsok
+                  obtain ⟨u3, mem', wb, hst, hi3, hdwf3, hcoh3, hwb⟩ :=
+                    store_ok (ctx := { a.ctx with Memory := mem2 }) hcfg.Lpos hdwf2 hcoh2 e hsok
+                  simp only at hst
+                  obtain ⟨p, ps, hchs, _, hall⟩ := storeOk_spec hsok
+                  have hwm := writeMemory_ok e a.ctx (fun q hq => by
+                    have := hall q.1 (List.mem_map_of_mem hq)
+                    exact ⟨this.1, this.2.1⟩)
+                  simp only [hst, hwm, StepRel]
+                  refine ⟨?_, hfc, rfl, rfl, hmr0.1, hmr0.2, ?_, ?_⟩
+                  · exact { pc := rfl, ctx := rfl, dwf := hdwf3, coh := hcoh3, iwf := by rw [hi3, hi2]; exact hfi }
+                  · rcases hwb with h | h <;> rw [h] <;> omega
+                  · rcases hwb with h | h <;> rw [h]
+                    · exact Proofs.Seq.l1_le_mem
+                    · exact Int.le_refl _
+                · simp only [h9, if_false, StepRel]
+                  exact ⟨hsim2, hfc, rfl, rfl, hmr0.1, hmr0.2, Int.le_refl 0, hmem⟩
   · simp only [h1, not_false_eq_true, if_true, StepRel]
     exact ⟨trivial, { pc := rfl, ctx := rfl, dwf := hdwf, coh := hcoh, iwf := hiwf }, Or.inl trivial⟩
 
